@@ -50,12 +50,15 @@ BaseSeq == <<"K", "R", "degC", "degF", "delta_degC", "delta_degF">>
 Bases == {BaseSeq[i] : i \in DOMAIN BaseSeq}
 \* ASCII prefix spellings of unyt.unit_prefixes ("" = no prefix); the two non-ASCII micro signs are not modelled
 PrefixSeq == <<"", "Y", "Z", "E", "P", "T", "G", "M", "k", "h", "da", "d", "c", "m", "u", "n", "p", "f", "a", "z", "y">>
-AllPrefixes == {PrefixSeq[i] : i \in DOMAIN PrefixSeq}
+\* the two non-ASCII micro spellings of unyt.unit_prefixes (MICRO SIGN U+00B5, GREEK SMALL LETTER MU U+03BC) by pseudo-name:
+\* TLC strings are ASCII, the harness maps them to the real characters
+MicroSpellings == {"micro_sign", "micro_mu"}
+AllPrefixes == {PrefixSeq[i] : i \in DOMAIN PrefixSeq} \cup MicroSpellings
 PExp(p) == CASE p = "" -> 0 [] p = "Y" -> 24 [] p = "Z" -> 21 [] p = "E" -> 18 [] p = "P" -> 15
              [] p = "T" -> 12 [] p = "G" -> 9 [] p = "M" -> 6 [] p = "k" -> 3 [] p = "h" -> 2
              [] p = "da" -> 1 [] p = "d" -> -1 [] p = "c" -> -2 [] p = "m" -> -3 [] p = "u" -> -6
              [] p = "n" -> -9 [] p = "p" -> -12 [] p = "f" -> -15 [] p = "a" -> -18 [] p = "z" -> -21
-             [] p = "y" -> -24
+             [] p = "y" -> -24 [] p \in MicroSpellings -> -6
 Prefixable(b) == b \in {"K", "degC", "delta_degC"}          \* fifth column of the table rows
 U(b, p) == [base |-> b, pfx |-> p]
 UName(u) == u.pfx \o u.base
@@ -80,7 +83,9 @@ IsPoint(u) == Kind(u) = "point"
 Fam(u) == IF u.base = "degC" THEN "C" ELSE IF u.base = "degF" THEN "F" ELSE "none"
 \* kelvin at reading zero: 273.15 for the Celsius scale, 459.67 * 5/9 for the Fahrenheit scale, 0 otherwise
 ZeroK(u) == IF u.base = "degC" THEN <<27315, 100>> ELSE IF u.base = "degF" THEN <<45967, 180>> ELSE <<0, 1>>
-MixedOffset(a, b) == Fam(a) # "none" /\ Fam(b) # "none" /\ Fam(a) # Fam(b)
+\* two different offset scales: Celsius against Fahrenheit, and also two differently prefixed Celsius scales
+\* (mdegC is a scale of its own: its readings are not degC readings); alternative spellings of the micro prefix are the same scale
+MixedOffset(a, b) == Fam(a) # "none" /\ Fam(b) # "none" /\ (Fam(a) # Fam(b) \/ E10(a) # E10(b))
 SameScale(a, b) == IsF(a) = IsF(b) /\ E10(a) = E10(b)
 KelvinSized(u) == ~IsF(u) /\ E10(u) = 0
 
@@ -189,8 +194,8 @@ RefOutcome(op, u) ==
 \* ("cconvert*" = convert_to_units / convert_to_base on x.copy()), so after every step the source must still
 \* denote the same readings, and every result is the affine image of those readings.
 ConvRoutesV == {"to", "in_units", "to_value", "cconvert"}                               \* explicit target s.v
-ConvRoutesK == {"in_base_mks", "in_base_cgs", "in_mks", "in_cgs", "cconvert_base"}      \* base unit kelvin
-ConvRoutesR == {"in_base_imperial"}                                                     \* base unit rankine
+ConvRoutesK == {"in_base_mks", "in_base_cgs", "in_mks", "in_cgs", "cconvert_base", "cconvert_mks", "cconvert_cgs"}   \* base unit kelvin
+ConvRoutesR == {"in_base_imperial", "cconvert_base_imperial"}                           \* base unit rankine
 IsConvRoute(r) == r \in ConvRoutesV \cup ConvRoutesK \cup ConvRoutesR
 RouteTarget(s) == IF s.r \in ConvRoutesV THEN s.v ELSE IF s.r \in ConvRoutesR THEN U("R", "") ELSE U("K", "")
 AsAdd(c, s) == [c EXCEPT !.fam = "bin", !.op = "add", !.form = "operator", !.u1 = s.v]
